@@ -116,6 +116,18 @@ def cases(shard, nshards, seed, tier):
         for hist in ([[0, "without_isolated"], [0, "str"]], [[0, "without_pseudoknots"], [1, "without_isolated"], [0, "pairs"]]):
             if mine():
                 yield {"family": "long-molecule", "n": n, "pairs": sorted(pairs), "history": hist}
+    # more than a hundred stems with a knot whose first-come-first-served levels are not the optimal ones
+    for t in range(2 if tier == "quick" else 8):
+        rng = random.Random(f"{seed}:C12:manystems:{t}")
+        a, bl = rng.randint(1, 2), rng.randint(3, 5)
+        pairs = [(1 + q, 2 * a + bl + 4 - q) for q in range(a)] + [(a + 3 + q, 2 * a + 2 * bl + 6 - q) for q in range(bl)]
+        pos = 2 * a + 2 * bl + 9
+        for _ in range(rng.randint(105, 130)):
+            pairs += [(pos, pos + 6), (pos + 1, pos + 5)]
+            pos += 9
+        for hist in ([[0, "without_pseudoknots"], [0, "dot_bracket"], [0, "without_pseudoknots"]], [[0, "without_isolated"], [1, "without_pseudoknots"], [0, "str"]]):
+            if mine():
+                yield {"family": "many-stems-knot-first", "n": pos + 2, "pairs": sorted(pairs), "history": hist}
     nmax = 6 if tier == "quick" else 7
     for n in range(2, nmax + 1):
         for pairs in gen2d.matchings(n):
